@@ -369,6 +369,6 @@ func init() {
 		Level:       "other",
 		Explanation: "Thin structural part only: escaping paths are rejected and their errors propagated, each output path is resolved on a private copy of the working directory; parent directories are created (successfully) before Run and outputs uploaded after; the Tree is emitted root first in descending post-order index; reported Path strings are the client's declared strings. Correctness of kinds, digests, Tree topology for arbitrary hierarchies and duplicate handling is NOT decided (needs generated inputs with an oracle).",
 		Assumptions: []string{"bb-storage's path.Resolve drives the walker correctly"},
-		Rules:       []RuleFunc{c10Escape, c10Order, c10Paths, c10Parents, c10Recursions, c10UploadAlways, c10TreeDedup},
+		Rules:       []RuleFunc{c10Escape, c10Order, c10Paths, c10Parents, c10Recursions, c10UploadAlways, c10TreeDedup, c10RootAlwaysTraversed, c10UploadBounded},
 	})
 }
